@@ -46,7 +46,7 @@ MonInit ==
   [pos |-> 0, cls |-> "", ps |-> "", size |-> Inf, sizeFixed |-> TRUE, implBase |-> Inf, lastSetPos |-> 0,
    endsSinceSet |-> 0, C |-> {}, alive |-> {}, prevAlive |-> {}, T |-> <<>>, R |-> <<>>, liveG |-> {}, Gobs |-> <<>>,
    forgot |-> {}, maybe |-> {}, closed |-> FALSE, H |-> <<>>, lastO |-> <<0, 0, 0, 0, 0, Inf>>,
-   lastCall |-> -2, void |-> FALSE, nstart |-> 0, lastIdle |-> TRUE, implSlack |-> 0, inj |-> {}, cbCanc |-> FALSE, extCanc |-> FALSE, gfPos |-> 0, anyExc |-> FALSE,
+   lastCall |-> -2, void |-> FALSE, nstart |-> 0, lastStop |-> FALSE, lastIdle |-> TRUE, implSlack |-> 0, inj |-> {}, cbCanc |-> FALSE, extCanc |-> FALSE, gfPos |-> 0, anyExc |-> FALSE,
    viol |-> {}, hit |-> {}]
 
 (* ---- bookkeeping helpers ------------------------------------------------ *)
@@ -189,6 +189,8 @@ OnBegin(g, e) ==
 OnCanc(g, e) ==
   LET t  == g.T[e.id]
       vs == Chk("C06.other", e.id, t.owed \/ g.extCanc)
+            \* ... and if the latest cancelling operation was a stop()/stop_all(): a task outside the returned list was hit
+            \cup (IF g.lastStop THEN Chk("C14.others", e.id, t.owed \/ g.extCanc) ELSE {})
   IN Out([g EXCEPT !.T = Upd(g.T, e.id, [t EXCEPT !.owed = FALSE])], vs, Hit("C06.deliver", TRUE))
 
 OnResume(g, e) ==
@@ -301,7 +303,7 @@ OnCancel(g, e) ==
                                          ELSE IF id \in ids THEN [g.T[id] EXCEPT !.late = TRUE]   \* reached it in its last step
                                          ELSE g.T[id]]
             ELSE g.T
-  IN Out([g EXCEPT !.T = T2], v1,
+  IN Out([g EXCEPT !.T = T2, !.lastStop = FALSE], v1,
          Hit("C06.ok", okRes /\ ids # {}) \cup Hit("C06.err", ~okRes) \cup Hit("C06.multi", Len(e.ids) > 1)
          \cup Hit("C06.flushed", ids \cap (g.forgot \cup g.maybe) # {}) \cup Hit("C06.never", ids \ g.C # {}))
 
@@ -314,7 +316,7 @@ CancelGroups(g, names) ==    \* effect of a successful cancel_group / cancel_all
                                              ELSE IF id \in members
                                              THEN [g.T[id] EXCEPT !.grp = "~forgotten", !.late = @ \/ (id \in g.alive /\ g.T[id].ecb = "no")]
                                              ELSE g.T[id]],
-               !.liveG = @ \ names, !.gfPos = g.pos]
+               !.liveG = @ \ names, !.gfPos = g.pos, !.lastStop = FALSE]
 
 OnCancelGroup(g, e) ==
   LET known == e.g \in g.liveG
@@ -347,7 +349,7 @@ OnStop(g, e) ==
                                          ELSE IF id \in rs THEN [g.T[id] EXCEPT !.late = TRUE]
                                          ELSE g.T[id]]
             ELSE g.T
-  IN Out([g EXCEPT !.T = T2], v1,
+  IN Out([g EXCEPT !.T = T2, !.lastStop = TRUE], v1,
          Hit("C14.lifo", Len(ret) > 0) \cup Hit("C14.partial", Len(ret) > 0 /\ Len(ret) < Card(P))
          \cup Hit("C14.gaps", \E a \in P, b \in (g.C \ P) : b < a) \cup Hit("C14.nonpos", n <= 0))
 
@@ -636,7 +638,7 @@ Clauses(p) ==       \* the clause names of each property (used by the model-chec
     [] p = "C11" -> {"C11.dense", "C11.name", "C11.pools", "C11.reuse"}
     [] p = "C12" -> {"C12.surface", "C12.others", "C12.reported"}
     [] p = "C13" -> {"C13.forget", "C13.keep", "C13.nothrow"}
-    [] p = "C14" -> {"C14.count", "C14.lifo"}
+    [] p = "C14" -> {"C14.count", "C14.lifo", "C14.others"}
     [] p = "C15" -> {"C15.get", "C15.limit", "C15.neg", "C15.raise", "C15.set"}
     [] OTHER -> {}
 =============================================================================
